@@ -16,3 +16,29 @@ package transport
 //@   ensures err == nil ==> n == len(p) && n >= 0
 
 //@ iface transport.Transport.Close() (err)
+
+// ---------------------------------------------------------------- implementations
+
+//@ func (*LegacyPKT).WritePacket
+//@   requires[C10] t != nil && t.Conn != nil
+//@   assigns *
+//@   site net.Conn.Write requires[C06] verbatim: arg1 == b && arg0 == t.Conn
+//@   nopanic[C10]
+
+//@ func (*LegacyPKT).ReadPacket
+//@   requires[C10] t != nil && t.ChunkedReader != nil
+//@   assigns *
+//@   ensures[C08] chunk: err == nil ==> n == len(p) && 0 <= n && n <= 4096
+//@   nopanic[C10]
+
+//@ func (*WSPKT).ReadPacket
+//@   requires[C10] t != nil && t.Conn != nil
+//@   assigns *
+//@   ensures[C08] chunk: err == nil ==> n == len(b) && 0 <= n
+//@   nopanic[C10]
+
+//@ func (*WSPKT).WritePacket
+//@   requires[C10] t != nil && t.Conn != nil
+//@   assigns *
+//@   ensures[C06] count: err == nil ==> n == len(b)
+//@   nopanic[C10]
